@@ -65,6 +65,7 @@ from .annotationparser import (
     OPT_ARRAY_FIXED_SIZE,
     OPT_ARRAY_LENGTH,
     OPT_ARRAY_ZERO_TERMINATED,
+    OPT_NOT_NULLABLE,
     OPT_OUT_CALLEE_ALLOCATES,
     OPT_OUT_CALLER_ALLOCATES,
     OPT_TRANSFER_CONTAINER,
@@ -782,7 +783,7 @@ class MainTransformer(object):
             node.nullable = True
 
         # Final override for nullability
-        if ANN_NOT in annotations:
+        if ANN_NOT in annotations and OPT_NOT_NULLABLE in annotations[ANN_NOT]:
             node.nullable = False
             node.not_nullable = True
 
